@@ -481,6 +481,21 @@ func (t *tracer) walk(v ssa.Value) {
 		}
 	case *ssa.FreeVar:
 		t.freevar(x, false)
+	case *ssa.Field:
+		// field of a struct value (e.g. an element of a slice of structs ranged by value):
+		// field-based, like a load through FieldAddr
+		var fv *types.Var
+		if st, ok := x.X.Type().Underlying().(*types.Struct); ok && x.Field < st.NumFields() {
+			fv = st.Field(x.Field)
+		}
+		stores := t.p.fieldStores[fv]
+		if fv == nil || len(stores) == 0 {
+			t.leaf(v)
+			return
+		}
+		for _, st := range stores {
+			t.walk(st.Val)
+		}
 	default:
 		t.leaf(v)
 	}
@@ -683,8 +698,37 @@ func (t *tracer) elements(s ssa.Value, depth int) bool {
 			}
 		}
 		return true
+	case *ssa.Field:
+		// a slice kept in a field of a struct value: every store to that field (field-based)
+		var fv *types.Var
+		if st, ok := x.X.Type().Underlying().(*types.Struct); ok && x.Field < st.NumFields() {
+			fv = st.Field(x.Field)
+		}
+		stores := t.p.fieldStores[fv]
+		if fv == nil || len(stores) == 0 {
+			return false
+		}
+		for _, st := range stores {
+			if !t.elements(st.Val, depth+1) {
+				return false
+			}
+		}
+		return true
 	case *ssa.UnOp:
 		if x.Op == token.MUL {
+			if fa, ok := x.X.(*ssa.FieldAddr); ok {
+				// a slice kept in a struct field: every store to that field (field-based)
+				stores := t.p.fieldStores[FieldVar(fa)]
+				if len(stores) == 0 {
+					return false
+				}
+				for _, st := range stores {
+					if !t.elements(st.Val, depth+1) {
+						return false
+					}
+				}
+				return true
+			}
 			if al, ok := x.X.(*ssa.Alloc); ok {
 				// a slice variable spilled to a cell
 				sts := CellStores(al)
@@ -1783,14 +1827,68 @@ func (p *Prog) idom(a, b ssa.Instruction, depth int) bool {
 	// a in a private helper called (plainly) from b's function: a must execute on every path
 	// through the helper, and that call must dominate b
 	fa := a.Parent()
-	if p.private(fa) && AllReturnsDominatedBy(a) {
+	if p.private(fa) {
+		all := AllReturnsDominatedBy(a)
 		for _, s := range p.Callers(fa) {
-			if _, isCall := s.Instr.(*ssa.Call); !isCall {
+			call, isCall := s.Instr.(*ssa.Call)
+			if !isCall {
 				continue
 			}
-			if p.idom(s.Instr, b, depth+1) {
+			if all && p.idom(s.Instr, b, depth+1) {
 				return true
 			}
+			if !all && condDominates(a, call, b) {
+				return true
+			}
+		}
+	}
+	return false
+}
+
+// condDominates: a sits in the function called at call; the returns of that
+// function that a does not dominate all return a constant (false/true/nil),
+// and b is reached only on an outcome of the call's result that excludes those
+// constants — so a executed whenever b is reached.
+func condDominates(a ssa.Instruction, call *ssa.Call, b ssa.Instruction) bool {
+	if call.Parent() != b.Parent() || !InstrDominates(call, b) {
+		return false
+	}
+	h := a.Parent()
+	if h.Signature.Results().Len() != 1 {
+		return false
+	}
+	escNil, escTrue, escFalse := false, false, false
+	for _, r := range Returns(h) {
+		if InstrDominates(a, r) {
+			continue
+		}
+		v := ReturnResult(r, 0)
+		if IsNilConst(v) {
+			escNil = true
+			continue
+		}
+		if k, ok := boolConst(v); ok {
+			if k {
+				escTrue = true
+			} else {
+				escFalse = true
+			}
+			continue
+		}
+		return false
+	}
+	for _, cd := range CondsAt(b.Block()) {
+		if cd.V == ssa.Value(call) && !escNil {
+			// result is cd.Truth here: the escaping returns must all yield the other value
+			if cd.Truth && !escTrue && escFalse {
+				return true
+			}
+			if !cd.Truth && !escFalse && escTrue {
+				return true
+			}
+		}
+		if x, eq, ok := NilCompare(cd.V); ok && x == ssa.Value(call) && eq != cd.Truth && escNil && !escTrue && !escFalse {
+			return true
 		}
 	}
 	return false
@@ -2024,4 +2122,50 @@ func condAltsAt(b *ssa.BasicBlock, depth int) [][]Cond {
 		return [][]Cond{CondsAt(b)}
 	}
 	return out
+}
+
+// SameValue reports whether a and b denote the same value: identical SSA
+// values after normalisation, or equal pure projections (field of a struct
+// value, component of a tuple) of the same value — go/ssa performs no common
+// subexpression elimination, so `pc.rsp` written twice yields two Field
+// instructions.
+func SameValue(a, b ssa.Value) bool {
+	for depth := 0; depth < 4; depth++ {
+		a, b = NormCell(a), NormCell(b)
+		if a == b {
+			return true
+		}
+		switch x := a.(type) {
+		case *ssa.Field:
+			y, ok := b.(*ssa.Field)
+			if !ok || x.Field != y.Field {
+				return false
+			}
+			a, b = x.X, y.X
+		case *ssa.Extract:
+			y, ok := b.(*ssa.Extract)
+			if !ok || x.Index != y.Index {
+				return false
+			}
+			a, b = x.Tuple, y.Tuple
+		case *ssa.UnOp:
+			// two loads of the same field of the same local struct variable
+			y, ok := b.(*ssa.UnOp)
+			if !ok || x.Op != token.MUL || y.Op != token.MUL {
+				return false
+			}
+			fx, ok1 := x.X.(*ssa.FieldAddr)
+			fy, ok2 := y.X.(*ssa.FieldAddr)
+			if !ok1 || !ok2 || fx.Field != fy.Field {
+				return false
+			}
+			if ax, ok := fx.X.(*ssa.Alloc); ok && fx.X == fy.X && !ax.Heap {
+				return true
+			}
+			return false
+		default:
+			return false
+		}
+	}
+	return false
 }
